@@ -203,7 +203,7 @@ def esc_line(case):
 
 def unesc_cases(tier, seed):
     rnd = random.Random(seed + 131)
-    alpha = list('\\\\\\aAfF0179gz \t\n\r\f"é') + ['\U0010ffff', '\r\n'] + list('dD8cCbBeE')
+    alpha = list('\\\\\\aAfF0179gz \t\n\r\f"é') + ['\U0010ffff', '\r\n'] + list('dD8cCbBeE') + ['\x0b', '\x1c', '\x85', '\xa0', '\u2003', '\u3000']   # white space for Python, not for CSS
     cases = [('unesc', c) for c in ['\\110000 x', '\\110000\r\nx', '\\FFFFFF', '\\0', '\\000000a', '\\10FFFF ', '\\D800 x', '\\E9 a',
                                     '\\E9a', '\\E9  a', '\\e9\r\na',
                                     # the edges of the surrogate block, of the BMP and of Unicode
